@@ -29,9 +29,12 @@ import (
 //                 per datagram.
 //  finished       "After completing it re-sends its final flight only in response to the peer's
 //                 retransmission": once an endpoint's FSM has reached FINISHED, a DTLS 1.2 endpoint never
-//                 emits on a timer, and never sends a flight in reaction to garbage. (A completed DTLS 1.3
-//                 server owns one reliable post-handshake message, NewSessionTicket, which awaits an ACK and
-//                 therefore follows timer-law until a new datagram from the client arrives.)
+//                 emits on a timer, and no completed endpoint sends a flight in reaction to garbage. (A
+//                 completed DTLS 1.3 server owns one reliable post-handshake message, NewSessionTicket, which
+//                 awaits an ACK and therefore follows timer-law: it must be retransmitted on schedule until a
+//                 datagram emitted by the COMPLETED client - which can only be an ACK - reaches the server, and
+//                 never afterwards; after any other new datagram retransmissions are allowed, on schedule, but
+//                 not required, because the harness cannot look inside protected records.)
 //  bound          "The number of datagrams an endpoint emits is bounded by its timer schedule plus a constant per
 //                 datagram received": a reaction has at most C datagrams, a timer step at most F (C, F
 //                 measured on the variant's default run), and in total emitted <= (1+timer steps)*F + C*received.
